@@ -18,13 +18,6 @@ Proof.
   specialize (Hdiff x Hin). rewrite Hx, bytes_eqb_refl in Hdiff. discriminate.
 Qed.
 
-Lemma zlen_concat_term w (full : list (list Z)) crlf : Forall (fun l => zlen l = w) full ->
-  zlen (concat (map (fun l => l ++ term crlf) full)) = Z.of_nat (length full) * (w + zlen (term crlf)).
-Proof.
-  induction 1 as [|l full Hl _ IH]; [reflexivity|].
-  cbn [map concat length]. rewrite !zlen_app', IH, Hl. lia.
-Qed.
-
 (** Size of a rendered record and the fields of its entry. *)
 Lemma entry_bounds nl off r : wf_rec nl r = true -> 0 <= off ->
   let e := entry nl off r in
